@@ -38,6 +38,9 @@ type Msg struct {
 	// framing said the body was over.
 	BodyComplete bool
 	Err          string
+	// NeedTotal, when > 0 on a PNeedMore result, is the total message length known from the
+	// head (Content-Length framing): callers need not re-parse before that many bytes arrived.
+	NeedTotal int
 }
 
 func (m *Msg) Get(name string) []string {
@@ -284,7 +287,7 @@ func ParseRequest(buf []byte) (*Msg, int, PStatus) {
 	if ok {
 		m.Framing = "cl"
 		if len(rest) < cl {
-			m.Body = append([]byte(nil), rest...)
+			m.NeedTotal = hl + cl
 			return m, 0, PNeedMore
 		}
 		m.Body = append([]byte(nil), rest[:cl]...)
@@ -333,7 +336,10 @@ func ParseResponse(buf []byte, reqMethod string, eof bool) (*Msg, int, PStatus) 
 	if ok {
 		m.Framing = "cl"
 		if len(rest) < cl {
-			m.Body = append([]byte(nil), rest...)
+			m.NeedTotal = hl + cl
+			if eof {
+				m.Body = append([]byte(nil), rest...)
+			}
 			return m, 0, PNeedMore
 		}
 		m.Body = append([]byte(nil), rest[:cl]...)
